@@ -245,14 +245,22 @@ def wgsCheck (a : SR Float) (adef : String) : Option String :=
 def judgeLine (line : String) : String :=
   let (lhs, rhs) := splitArrow (tokens line)
   match lhs with
-  | "rt" :: _gcls :: adef :: _bdef :: n :: pts =>
+  | "cl" :: _gcls :: _bdef :: n :: pts => judgeClosures n pts rhs
+  | _kind :: _gcls :: adef :: _bdef :: n :: pts =>
+    -- `cc` lines carry, after the trips, `X <number of concurrent answers that differ from the
+    -- sequential answer for the same input> <first differing position>`
+    let conc : List String :=
+      match rhs.dropWhile (· ≠ "X") with
+      | _ :: nd :: rest => if nd == "0" then [] else
+          [s!"concurrent-use-differs {nd} answers of goroutines sharing one transformer differ from the sequential answers; first {" ".intercalate rest}"]
+      | _ => []
     match rhs with
     | "A" :: r =>
       match parseSR r with
       | some (a, "B" :: r) =>
         match parseSR r with
         | some (b, "T" :: nab :: nba :: "H" :: hist :: "R" :: r) =>
-          let cls := classOf a b
+          let cls := classOf a b ++ (if _kind == "cc" then "-concurrent" else "")
           match parsePositions (n.toNat?.getD 0) pts with
           | none => "BAD positions"
           | some ps =>
@@ -260,7 +268,7 @@ def judgeLine (line : String) : String :=
             | none => "BAD trips"
             | some ts =>
               let vs := ts.map fun (t, e) => judgeTrip a b (nab == "1") (nba == "1") t e
-              let unexpl := vs.filterMap fun v => match v.spec with | some (w, false) => some w | _ => none
+              let unexpl := conc ++ vs.filterMap fun v => match v.spec with | some (w, false) => some w | _ => none
               let expl := vs.filterMap fun v => match v.spec with | some (w, true) => some w | _ => none
               -- the reused transformers' answers must be those of transformers built fresh per call
               let diffs := (vs.filterMap fun v => v.diff) ++
@@ -282,7 +290,6 @@ def judgeLine (line : String) : String :=
     | "crash" :: r => s!"SPEC crash crashed {" ".intercalate r}"
     | "timeout" :: r => s!"SPEC timeout timed-out {" ".intercalate r}"
     | _ => "BAD result"
-  | "cl" :: _gcls :: _bdef :: n :: pts => judgeClosures n pts rhs
   | _ => "BAD line"
 
 end GeomV.C08
